@@ -413,7 +413,7 @@ def step (st : St) (toks : List String) : St × String :=
   | "reactor" :: rest =>
     match kv rest "kind" with
     | some k =>
-      if ["consensus", "mempool", "mempoolv1", "evidence", "blockchain", "statesync", "pex", "pexseed"].contains k
+      if ["consensus", "mempool", "mempoolv1", "evidence", "blockchain", "blockchain-ho", "statesync", "pex", "pexseed"].contains k
       then
         let vs : Int := (((kv rest "vals").bind String.toInt?).filter (fun x => 0 < x)).getD 4
         ({ st with reactor := true, consensus := k == "consensus", prs := {}, pexMarker := 0, valSize := vs, pexSeed := k == "pexseed" }, "ok")
@@ -442,6 +442,16 @@ def step (st : St) (toks : List String) : St × String :=
           | some none => (st, "recovered-panic " ++ showPRS st.prs)
           | some (some p') => ({ st with prs := p' }, "ok " ++ showPRS p')
     | _, _ => (st, "bad-op")
+  | "hflood" :: rest =>
+    if ¬ st.reactor then (st, "bad-op") else
+    match (kv rest "n").bind String.toNat? with
+    | some n =>
+      -- every report the flood provokes goes through a guarded send (`chanSend true`): whether the
+      -- service still runs (consumer alive) or not, none blocks forever
+      let c : ReactorMsgs.BChan := { cap := 1000, len := 0, consumer := false }
+      if (ReactorMsgs.chanSends true false n c).contains .blockedForever then (st, "WEDGED-handover-flood")
+      else (st, "alive")
+    | none => (st, "bad-op")
   | "flood" :: rest =>
     if ¬ st.reactor then (st, "bad-op") else
     match kv rest "expect", (kv rest "peers").bind String.toNat?, (kv rest "per").bind String.toNat? with
